@@ -248,6 +248,9 @@ Section Sem.
       apply beqb_eq in Bs. assert (r = c) by (apply E; auto). subst. rewrite beqb_refl in B. discriminate.
   Qed.
 
+  Lemma beqb_sym' (r c : list bool) : beqb r c = beqb c r.
+  Proof. apply eq_true_iff_eq. rewrite !beqb_eq. split; congruence. Qed.
+
   Lemma agree_off_sym qs r c : agree_off qs r c = agree_off qs c r.
   Proof.
     apply eq_true_iff_eq. rewrite !agree_off_spec. split; intros [Hl H]; (split; [congruence|]); intros j Hj;
@@ -285,12 +288,12 @@ Section Sem.
         { assert (X : agree_off ts r c = true) by assumption.
           apply (agree_off_app cs ts r c ltac:(congruence) Rc Hd) in X. tauto. }
         rewrite Es. destruct (all1 (sel cs c)); [reflexivity|].
-        rewrite (beqb_sym c r). destruct (beqb r c); auto.
+        rewrite (beqb_sym' c r). destruct (beqb r c); auto.
       - assert (Nrc : beqb r c = false).
         { destruct (beqb r c) eqn:B; [|reflexivity]. apply beqb_eq in B. subst.
           assert (agree_off ts c c = true) by (apply agree_off_spec; split; [reflexivity|intros; now right]).
           congruence. }
-        rewrite (beqb_sym c r), Nrc.
+        rewrite (beqb_sym' c r), Nrc.
         destruct (all1 (sel cs r)), (all1 (sel cs c)); auto.
     Qed.
 
